@@ -442,7 +442,9 @@ def loop_nest(fn: ast.FunctionDef, target: str):
             if cur.orelse:
                 raise Untranslatable("for/else")
             gens.append((cur.target, subst(cur.iter, env)))
-            body = _strip(cur.body)
+            body = [b for b in _strip(cur.body)
+                    if not (isinstance(b, ast.Assign) and len(b.targets) == 1 and isinstance(b.targets[0], ast.Name)
+                            and b.targets[0].id in env)]
             if len(body) == 1 and isinstance(body[0], ast.For):
                 cur = body[0]
                 continue
